@@ -885,6 +885,10 @@ func c16Random(r *Rand) (string, string) {
 		if c16Costly(s) && !r.Chance(15) {
 			continue
 		}
+		// bounded length: long generated expressions only multiply the number of results
+		if (len(s) > 28 && !c16Costly(s)) || len(s) > 90 {
+			continue
+		}
 		return s, src
 	}
 }
@@ -901,9 +905,9 @@ func c16Random1(r *Rand) (string, string) {
 	case k < 9:
 		return r.Pick([]string{"", "a", "x-", "\\"}) + "{" + c16SeqText(r) + "}" + r.Pick([]string{"", "", "b", "{a,b}", "\\"}), "sequence"
 	case k < 16:
-		return c16Expr(r, 3), "expr"
+		return c16Expr(r, 1+r.Intn(3)), "expr"
 	case k < 18:
-		return c16Mutate(r, c16Expr(r, 3)), "expr-mutated"
+		return c16Mutate(r, c16Expr(r, 1+r.Intn(3))), "expr-mutated"
 	default:
 		return "{" + c16SeqText(r) + "}{" + c16SeqText(r) + "}", "sequence-product"
 	}
